@@ -105,6 +105,9 @@ def crash_info(p, progress):
 def replay(chk, sd, ov, behs, root, name, race=True):
     bf = vf.write_ndjson(os.path.join(sd, "beh-%s.ndjson" % name), behs)
     out = os.path.join(sd, "replay-%s.json" % name)
+    for f in (out, out + ".progress"):
+        if os.path.exists(f):
+            os.remove(f)
     env = {"VERIF_IN": bf, "VERIF_OUT": out, "VERIF_SVCROOT": root, "VERIF_EGOPATH": vf.REPO, "VERIF_PROGRESS": out + ".progress"}
     p = vf.go_test(ov, "./" + PKG + "/", "^TestVerifC42Replay$", env=env, race=race, timeout=3000)
     if not os.path.exists(out):
@@ -205,30 +208,34 @@ def run():
                 chk.cov["exhaustive_2req"] = len(behs)
             for f in f_gen:
                 behs += f.result()
-            res = replay(chk, sd, ov, behs, root, "main")
+            # the last behaviour handed to the harness is the binding self-test (R): a copy of a generated behaviour
+            # with one perturbed expected value, which must be reported as a mismatch
+            rng = random.Random(vf.SEED)
+            cand = [b for b in behs if any(s["st"]["resp"] for s in b["steps"])]
+            if not cand:
+                raise vf.NoVerdict("self-test: no generated behaviour delivers a response")
+            pb = json.loads(json.dumps(rng.choice(cand[:50])))
+            si = max(i for i, s in enumerate(pb["steps"]) if s["st"]["resp"])
+            rr = sorted(pb["steps"][si]["st"]["resp"])[0]
+            pb["steps"][si]["st"]["resp"][rr]["status"] = 299
+            res = replay(chk, sd, ov, behs + [pb], root, "main")
             if res is not None:
-                for m in res.get("mismatches") or []:
+                mism = [m for m in res.get("mismatches") or [] if m["behaviour"] < len(behs)]
+                selfm = [m for m in res.get("mismatches") or [] if m["behaviour"] == len(behs)]
+                for m in mism:
                     chk.violation(mismatch_key(m), "real code differs from the specification at %s after %s: spec=%s real=%s"
                                   % (m["path"], m["act"], m["want"], m["got"]), m)
-                chk.cov["traces_validated_against_impl"] += res["behaviours"]
+                if not mism:
+                    # (only judged when the replay itself was clean: a diverging tree stops the perturbed behaviour early)
+                    if res["behaviours"] != len(behs) + 1 or not any(".resp" in m["path"] for m in selfm):
+                        raise vf.NoVerdict("binding self-test (R) failed: a perturbed expected response was not reported")
+                    chk.cov["binding_selftest_R"] = "perturbed expected response status reported as mismatch"
+                chk.cov["traces_validated_against_impl"] += min(res["behaviours"], len(behs))
                 chk.cov["evaluations"] += res["steps"]
                 chk.cov["distinct_nontrivial"] += res["transitions"]
                 chk.cov["replay_act_counts"] = res["act_counts"]
                 chk.cov["replay_extra"] = res.get("extra")
                 chk.sample({"kind": "replayed behaviour (calls only)", "svc": behs[0]["svc"], "calls": [s["call"] for s in behs[0]["steps"]]})
-                # binding self-test (R): one perturbed expected value must be reported as a mismatch
-                rng = random.Random(vf.SEED)
-                cand = [b for b in behs if any(s["st"]["resp"] for s in b["steps"])]
-                if not cand:
-                    raise vf.NoVerdict("self-test: no generated behaviour delivers a response")
-                b = json.loads(json.dumps(rng.choice(cand[:50])))
-                si = max(i for i, s in enumerate(b["steps"]) if s["st"]["resp"])
-                rr = sorted(b["steps"][si]["st"]["resp"])[0]
-                b["steps"][si]["st"]["resp"][rr]["status"] = 299
-                rs = replay(vf.Check(PROP), sd, ov, [b], root, "selftest")
-                if rs is None or not any(".resp" in m["path"] for m in rs.get("mismatches") or []):
-                    raise vf.NoVerdict("binding self-test (R) failed: a perturbed expected response was not reported")
-                chk.cov["binding_selftest_R"] = "perturbed expected response status reported as mismatch"
             # 4. T: concurrent batches of the real handler validated against the spec
             p, tr = f_conc.result()
         out = p.stdout + p.stderr
